@@ -403,3 +403,43 @@ func VH_C09_batches_kept() {
 	vrt.Assert(i == len(want), "no-entry-lost")
 	vrt.Reach("end")
 }
+
+// VH_C09_logfmt_parser: the in-process logfmt extraction (kr/logfmt executed from SSA), without and with
+// requested fields (`| logfmt status="http_status"`), over a line of two key=value pairs whose second key
+// contains a symbolic byte (letters, digits, '_', '.', '-'): without parameters every key becomes its sanitised
+// label; with parameters exactly the requested keys - compared byte for byte, not after sanitising - fill their
+// labels.
+func VH_C09_logfmt_parser() {
+	vrt.Unwind(2000)
+	vrt.ConcreteUnwind(200000)
+	kb := vrt.Byte("key-byte")
+	vrt.Assume((kb >= 'a' && kb <= 'z') || kb == '_' || kb == '.' || kb == '-' || (kb >= '0' && kb <= '9'))
+	key2 := "http" + string([]byte{kb}) + "status"
+	vb := vrt.Byte("value-byte")
+	vrt.Assume(vb >= '0' && vb <= '9')
+	line := "http_status=500 " + key2 + "=20" + string([]byte{vb})
+	labels := map[string]string{"app": "x"}
+	p := &ParserPlanner{Op: "logfmt"}
+	withParams := vrt.Bool("requested-fields")
+	if withParams {
+		p.logfmtFields = map[string]string{"http_status": "status"}
+	}
+	got, err := p.logfmt(line, &labels)
+	vrt.Assert(err == nil, "line-parses")
+	if withParams {
+		want := "500"
+		if kb == '_' {
+			want = "20" + string([]byte{vb}) // the same key twice: the later pair wins
+		}
+		vrt.Assert(got["status"] == want, "requested-label-filled-from-exactly-the-requested-key")
+		vrt.Assert(len(got) == 2 && got["app"] == "x", "nothing-else-extracted")
+	} else {
+		san := "http_status"
+		if (kb >= 'a' && kb <= 'z') || (kb >= '0' && kb <= '9') {
+			san = "http" + string([]byte{kb}) + "status"
+		}
+		vrt.Assert(got[san] == "20"+string([]byte{vb}), "every-key-becomes-its-sanitised-label")
+		vrt.Assert(got["app"] == "x", "existing-labels-kept")
+	}
+	vrt.Reach("end")
+}
